@@ -54,7 +54,7 @@ def run(ctx):
                 full.append(P.two_runs(fam, p, p, items, s, "Equal", feed_b=fb, pre_b=pre,
                                        restrict=(lambda nums: nums) if fam != "NNDVI" else None, extra={"order": order}))
     # large batches (thousands of rows) for the kdq-tree detector: row order must still not matter
-    for i in range(1 if q else 4):
+    for i in range(3 if q else 8):
         p = P.default_params("KdqTreeBatch", rng)
         p.update(count_ubound=50)
         c = [rng.randint(-20, 20), rng.randint(-20, 20)]
